@@ -61,6 +61,8 @@ def make_spec(o, variant=1, seed=0):
         "g1": S.mc_global(["q1", "q2"]),
     }
     datasets = []
+    if o["relation"] == "two" and o["multimc"] == "single":
+        o = dict(o, multimc="two")  # the pair of relations needs s1, s2 and s3 in one dataset
     for k in range(n):
         if o["multimc"] == "single":
             m, ms = (["m1"] if k % 2 == 0 else ["m2"]), None
@@ -111,9 +113,10 @@ def make_spec(o, variant=1, seed=0):
     if o["relation"] == "iv":
         spec["relations"].append({"source": "s2", "target": "s3", "parameter": 0.7, "interval": [1, 3]})
     elif o["relation"] == "two":  # two relations whose intervals follow one another along the axis
-        # (both live on the labels of one megacomplex, so that they meet in every dataset that carries it)
+        # (one source, two targets: the datasets carry both megacomplexes - see below - so that both relations meet in
+        # every dataset and the column of the common source survives both)
         spec["relations"].append({"source": "s2", "target": "s3", "parameter": 0.7, "interval": [1, 2]})
-        spec["relations"].append({"source": "s3", "target": "s2", "parameter": 0.4, "interval": [3, 5]})
+        spec["relations"].append({"source": "s2", "target": "s1", "parameter": 0.4, "interval": [3, 5]})
     elif o["relation"] == "all":
         spec["relations"].append({"source": "s2", "target": "s3", "parameter": 0.7, "interval": None})
     if o["penalty"] == "yes":
